@@ -296,3 +296,22 @@ class SourceIndex:
         mod2, cname = mod.rsplit('.', 1)
         c = self.modules[mod2].classes[cname]
         return self.modules[mod2], c.class_assigns[name]
+
+
+def continuation_after(func_node, stmt):
+    """The statements that run after `stmt` (a statement of `func_node`, possibly nested in `if` blocks) up to the end of the function,
+    in order: the rest of its own block, then the rest of every enclosing block.  None when `stmt` is not found or sits inside a loop,
+    a try or a with block (control does not simply fall through there)."""
+    import ast
+
+    def search(block):
+        for i, st in enumerate(block):
+            if st is stmt:
+                return list(block[i + 1:])
+            if isinstance(st, ast.If):
+                for sub in (st.body, st.orelse):
+                    r = search(sub)
+                    if r is not None:
+                        return r + list(block[i + 1:])
+        return None
+    return search(func_node.body)
